@@ -15,6 +15,7 @@ class TimePattern(i_lib.TimePattern):
         if hours and minutes:
             self._init_hour_set(hours)
             self._init_minute_set(minutes)
+        self._alternatives = [(self._hour_set, self._minute_set)]
 
     def __repr__(self):
         return self._repr
@@ -63,12 +64,18 @@ class TimePattern(i_lib.TimePattern):
         int_minutes = int(minutes)
         return 0 <= int_minutes < 60
 
+    def copy(self):
+        result = TimePattern(None, None)
+        result._repr = self._repr
+        result._alternatives = list(self._alternatives)
+        return result
+
     def union(self, other):
-        self._hour_set.update(other._hour_set)
-        self._minute_set.update(other._minute_set)
+        self._alternatives.extend(other._alternatives)
 
     def match(self, hours, minutes):
-        return hours in self._hour_set and minutes in self._minute_set
+        return any(hours in hour_set and minutes in minute_set
+                   for hour_set, minute_set in self._alternatives)
 
     def _init_hour_set(self, pattern):
         if pattern == '*':
